@@ -121,5 +121,73 @@ def prob(text, engine="default", evaluatable=None, semiring=None, gopts=None, eo
     else:
         result = formula.evaluate(**eopts)
     if semiring == "symbolic":
-        return {"answers": {str(k): str(v) for k, v in result.items()}}
+        # the symbolic semiring yields an arithmetic expression; evaluate it as ordinary arithmetic
+        ans = {}
+        for k, v in result.items():
+            ans[str(k)] = float(eval(str(v), {"__builtins__": {}}, {}))
+        return {"answers": ans, "symbolic": {str(k): str(v) for k, v in result.items()}}
     return {"answers": _names(result)}
+
+
+def backends():
+    """Exact evaluatables that can run in this sandbox."""
+    from problog import get_evaluatables, get_evaluatable
+    from problog.program import PrologString
+    ok = []
+    for name in ("ddnnf", "sdd", "sddx", "fsdd", "fbdd", "bdd"):
+        try:
+            k = get_evaluatable(name)
+            k.create_from(PrologString("0.5::a. query(a).")).evaluate()
+            ok.append(name)
+        except BaseException:
+            pass
+    return {"backends": ok}
+
+
+def history(text, steps, mode="shared", engine="default"):
+    """C08: ground queries / evidence step by step.
+
+    text : program text WITHOUT query/evidence statements
+    steps: list of [kind, atom_text] with kind in 'query' | 'ev+' | 'ev-' | 'probe'
+           ('probe' = engine.query(db, term) on a throw-away formula in between)
+    mode 'shared': one prepared db, one shared target formula, steps in the given order, one evaluation at the end
+    mode 'fresh' : one prepared db; for every query a fresh target with the evidence steps + that query"""
+    from problog.program import PrologString
+    from problog.logic import Term
+    from problog.formula import LogicFormula
+    from problog import get_evaluatable
+    eng = make_engine(engine)
+    db = eng.prepare(PrologString(text))
+
+    def do(target, kind, atxt):
+        t = Term.from_string(atxt)
+        if kind == "query":
+            return eng.ground(db, t, target, label=LogicFormula.LABEL_QUERY)
+        if kind == "ev+":
+            return eng.ground(db, t, target, label=LogicFormula.LABEL_EVIDENCE_POS, is_root=True)
+        if kind == "ev-":
+            return eng.ground(db, t, target, label=LogicFormula.LABEL_EVIDENCE_NEG, is_root=True)
+        if kind == "probe":
+            eng.query(db, t)
+            return target
+        raise ValueError(kind)
+
+    if mode == "shared":
+        target = LogicFormula()
+        for kind, atxt in steps:
+            target = do(target, kind, atxt)
+        res = get_evaluatable().create_from(target).evaluate()
+        return {"answers": _names(res)}
+    answers = {}
+    for kind, atxt in steps:
+        if kind != "query":
+            continue
+        target = LogicFormula()
+        for k2, a2 in steps:
+            if k2 in ("ev+", "ev-"):
+                target = do(target, k2, a2)
+        target = do(target, "query", atxt)
+        res = get_evaluatable().create_from(target).evaluate()
+        for k, v in _names(res).items():
+            answers[k] = v
+    return {"answers": answers}
